@@ -32,7 +32,7 @@ CLAIMED = {
         note=TB + "Replies out of hash maps/sets compared as sorted collections; SINTER's scan order follows Redis.",
         ref="DESIGN.md section 5 C03"),
     "C15": dict(
-        text=("Proof: ID monotonicity as a history invariant (partial at the u64 sequence wrap, with witness), explicit-ID refusal without effect, XRANGE/XREVRANGE = filter "
+        text=("Proof: ID monotonicity as a history invariant at full strength for the tree as it is (sequence carry and refusal exactly when no greater ID exists: ids_strictly_increase, auto_refused_iff_no_successor; witness for the pinned wrap), explicit-ID refusal without effect, XRANGE/XREVRANGE = filter "
               "over the sorted entry list for all bounds and counts (the real halving binary search is proved to meet its contract), XREAD = filter >, XLEN = length, "
               "XDEL/XTRIM as filters, ID text parsing; tied to the real Stream and handle_x* handlers in-process (27k evaluations per quick run, source switches detected by regex)."),
         note=TB + "Wall-clock reading is an input of the model; auto IDs are a checked relation; the compare_exchange retry path is assumed not to fire on one thread.",
